@@ -29,7 +29,7 @@ func (d *digest) sum() []byte { return d.h.Sum(nil) }
 // RunChain is the chain-mode engine: it serves the FSM-level properties.
 func RunChain(c *simkit.Ctx) {
 	t := c.T
-	w := &world{c: c, included: map[string]uint64{}, ledger: newLedger()}
+	w := &world{c: c, included: map[string]uint64{}, ledger: newLedger(), mustFail: map[string]string{}, contentSeen: map[string]uint64{}, contentBytes: map[string]string{}}
 	defer w.cleanup()
 	store.VerifPurgeBlockCache()
 	nVals := 3 + t.Intn(2)
@@ -78,7 +78,19 @@ func (w *world) stepHeight(forceTxs int) {
 		ntx = forceTxs
 	}
 	for i := 0; i < ntx; i++ {
-		w.submit(w.genTx(ups[0]))
+		g := w.genTx(ups[0])
+		advFirst := t.Chance(1, 2)
+		adv := c.Prop == "C05" && t.Chance(1, 2) || c.Prop != "C05" && t.Chance(1, 8)
+		if adv && advFirst {
+			w.authAttack(g)
+		}
+		w.submit(g)
+		if adv && !advFirst {
+			w.authAttack(g)
+		}
+	}
+	if c.Prop == "C06" && t.Chance(2, 3) || c.Prop != "C06" && t.Chance(1, 8) {
+		w.replayAttack()
 	}
 	// 2. proposer
 	p := ups[t.Intn(len(ups))]
@@ -137,12 +149,14 @@ func (w *world) stepHeight(forceTxs int) {
 		c.Logf("h%d: committee is empty (%v); chain halts by design", h, err)
 		c.Probe("committee_became_empty")
 		w.halted = true
+		w.abandonProposal(ups)
 		return
 	}
 	qc := w.certify(pr, vs, false)
 	if qc == nil {
 		c.Logf("h%d: simulator holds keys for less than 2/3 of the committee; stopping", h)
 		c.Probe("committee_keys_below_quorum")
+		w.abandonProposal(ups)
 		return
 	}
 	// 6. delivery
@@ -158,6 +172,7 @@ func (w *world) stepHeight(forceTxs int) {
 		w.deliver(n, qc, false, "live")
 	}
 	w.chain = append(w.chain, &chainRec{height: h, blockHash: pr.block.BlockHeader.Hash, qc: qc, proposer: p.idx})
+	w.checkIncluded(h, pr.block.Transactions)
 	for _, tx := range pr.block.Transactions {
 		w.included[string(tx)] = h
 	}
@@ -177,6 +192,16 @@ func (w *world) stepHeight(forceTxs int) {
 		w.syncFrom(n, src, h)
 	}
 	w.afterCommitOracles(fmt.Sprintf("h%d", h))
+}
+
+// abandonProposal: the height is never certified, so every replica drops the speculative state its
+// ValidateProposal left in the FSM (what bft.RoundInterrupt does through ResetFSM).
+func (w *world) abandonProposal(ups []*node) {
+	for _, r := range ups {
+		w.focus(r)
+		r.ctl.ResetFSM()
+		r.ctl.Consensus.BlockResult = nil
+	}
 }
 
 func (w *world) honestRejected(r *node, pr *proposal, stage string, err error) {
@@ -221,10 +246,6 @@ func (w *world) syncFrom(n, src *node, upTo uint64) {
 			c.ReportFor("C11", "archive", "archive-cannot-serve-height", fmt.Sprintf("%s cannot serve committed height %d from its archive: %v", src.name, h, err))
 			return
 		}
-		if c.Verbose && int(h) <= len(w.chain) {
-			orig := w.chain[h-1].qc
-			fmt.Printf("DBG archive h%d: blockHash equal=%v blockBytes equal=%v len %d vs %d\n  orig=%x\n  arch=%x\n", h, bytes.Equal(orig.BlockHash, qc.BlockHash), bytes.Equal(orig.Block, qc.Block), len(orig.Block), len(qc.Block), orig.Block, qc.Block)
-		}
 		syncing := c.T.Chance(1, 2)
 		usedSyncMode = usedSyncMode || syncing
 		if !w.deliver(n, qc, syncing, "archive") {
@@ -243,15 +264,6 @@ func (w *world) restartNode(n *node) {
 	w.focus(n)
 	n.open()
 	c.Fault("node_restart")
-	if c.Verbose {
-		st := n.ctl.FSM.Store().(lib.StoreI)
-		for h := uint64(1); h < n.height(); h++ {
-			store.VerifPurgeBlockCache()
-			b, e := st.GetBlockByHeight(h)
-			q, e2 := st.GetQCByHeight(h)
-			fmt.Printf("DBG after restart %s: block %d -> header=%v err=%v ; qc header=%v blocklen=%d err=%v\n", n.name, h, b != nil && b.BlockHeader != nil && b.BlockHeader.Height == h, e, q != nil && q.Header != nil, len(q.GetBlock()), e2)
-		}
-	}
 	c.Logf("%s restarted at height %d", n.name, n.height())
 	if n.height() != hBefore {
 		c.ReportFor("C09", "reopen", "restart-changed-height", fmt.Sprintf("%s: height %d before clean restart, %d after", n.name, hBefore, n.height()))
